@@ -122,6 +122,50 @@ pub fn core_workload(seed: u64, n: u64) -> Digest {
             Err(e) => d.i(err_code(&e)),
         }
     }
+    // zones with many local time types and transitions, built in fixed-size arrays (no allocator):
+    // type k has offset (k - 8) * 1800 s, transitions every ~10 days cycling through all types
+    let mut many_types = [LocalTimeType::utc(); 20];
+    for (k, t) in many_types.iter_mut().enumerate() {
+        *t = LocalTimeType::with_ut_offset((k as i32 - 8) * 1800 + (k as i32 % 3)).unwrap();
+    }
+    let mut many_transitions = [Transition::new(0, 0); 48];
+    let mut tt = -200_000_000i64;
+    for (k, tr) in many_transitions.iter_mut().enumerate() {
+        tt += 864_000 + (r.next() % 86_400) as i64;
+        *tr = Transition::new(tt, (k * 7 + 3) % 20);
+    }
+    let big_zones = [
+        TimeZoneRef::new(&many_transitions, &many_types, &[], &none).unwrap(),
+        TimeZoneRef::new(&many_transitions[..31], &many_types, &leaps, &none).unwrap(),
+        TimeZoneRef::new(&many_transitions[..9], &many_types, &[], &none).unwrap(),
+    ];
+    for i in 0..n / 4 + 1 {
+        let z = big_zones[(i % 3) as usize];
+        let k = (r.next() % 48) as usize;
+        let t = many_transitions[k].unix_leap_time() + r.range(-90_000, 900_000);
+        match DateTime::from_timespec(t, 1, z) {
+            Ok(x) => {
+                dig_dt(&mut d, &x);
+                let mut buf = [None; 6];
+                match DateTime::find_n(&mut buf, x.year(), x.month(), x.month_day(), x.hour(), x.minute(), x.second(), 1, z) {
+                    Ok(res) => {
+                        d.i(res.count() as i64);
+                        for k in res.data().iter().flatten() {
+                            match k {
+                                FoundDateTimeKind::Normal(a) => dig_dt(&mut d, a),
+                                FoundDateTimeKind::Skipped { before_transition, after_transition } => {
+                                    dig_dt(&mut d, before_transition);
+                                    dig_dt(&mut d, after_transition);
+                                }
+                            }
+                        }
+                    }
+                    Err(e) => d.i(err_code(&e)),
+                }
+            }
+            Err(e) => d.i(err_code(&e)),
+        }
+    }
     for i in 0..n {
         let t = match i % 4 {
             0 => r.range(-3_000_000_000, 5_000_000_000),
